@@ -306,6 +306,39 @@ def user_expr_name_grid(ck, tier):
     ck.notes["user_expr_name_grid"] = {"programs": len(progs), "failing": len(bad)}
 
 
+# user CONSTANTS named like well-known values of the prelude / std, written as the bare path of a `#[default(..)]` expression on a field of
+# another type: a path is converted with `Into` whatever it is called (a generator that takes `None` for `Option::None` drops the conversion)
+USER_VALUE_NAMES = ["None", "Some", "Ok", "Err", "Default", "Less", "Equal", "Greater", "PhantomData", "MAX", "MIN", "NAN", "EMPTY", "default", "new", "String", "Vec",
+                    "Self_", "this", "value", "Into", "From"]
+
+
+def user_value_name_grid(ck, tier):
+    progs = []
+    for nm in USER_VALUE_NAMES:
+        for entry in ("attr", "derive"):
+            head = rf.derive_head(["Default", "Clone", "Debug", "PartialEq", "PartialOrd"], entry)
+            progs.append("#![allow(dead_code, non_camel_case_types, non_snake_case, non_upper_case_globals)]\npub mod m { pub const %s: &str = \"v\";\n"
+                         "%s pub struct T { #[default(%s)] pub a: ::std::string::String, pub b: u8 }\n"
+                         "%s pub enum E { #[default] A(#[default(%s)] ::std::string::String, u8), B }\n"
+                         "pub fn probe() -> bool { <T as ::core::default::Default>::default().a == \"v\" } }\n" % (nm, head, nm, head, nm))
+    wd = os.path.join(dx.WORK, "c13uv-%d" % os.getpid())
+
+    def comp(ix):
+        i, src = ix
+        ok, diags = dx.check_only("u%d" % i, src, wd)
+        return ok, dx.diag_summary(diags)[:3]
+    res = dx.pmap(comp, list(enumerate(progs)))
+    import shutil
+    shutil.rmtree(wd, ignore_errors=True)
+    events = [{"ev": "compiles", "rustc_ok": ok} for ok, _ in res]
+    n, bad, jst = dx.tlc_judge("Trace_Bounds", "Trace_Bounds.cfg", events, "c13uv")
+    ck.add_judge(n, jst)
+    for i in bad:
+        ck.violation({"family": "user_value_name", "scheme": "prelude", "name": USER_VALUE_NAMES[i // 2], "codes": ",".join(sorted(set(d.get("code") or "?" for d in res[i][1])))},
+                     {"what": "a user constant with this name, written as a default expression, is not treated like any other path", "source": progs[i], "diagnostics": res[i][1]})
+    ck.notes["user_value_name_grid"] = {"programs": len(progs), "failing": len(bad)}
+
+
 # well-known std type names defined by the USER (a different type all the same) and used as field types of a generic item: the generated
 # bounds and bodies must treat them like any other type
 USER_TYPE_NAMES = ["PhantomData", "PhantomPinned", "Option", "Vec", "Box", "Rc", "Arc", "Cell", "RefCell", "Result", "Cow", "Wrapping", "Reverse", "ManuallyDrop",
@@ -444,6 +477,7 @@ def c13(tier):
     const_param_grid(ck, tier)
     type_name_grid(ck, tier, auto)
     user_expr_name_grid(ck, tier)
+    user_value_name_grid(ck, tier)
     user_type_name_grid(ck, tier)
     raw_mix_grid(ck, tier)
     user_fn_name_grid(ck, tier)
